@@ -399,6 +399,8 @@ def mutate_project(P, files, links, mutation, ti):
 def eval_case(ctx, case):
     import random
 
+    if case.get("kind") == "latex":
+        return eval_single_file_builder(ctx, case)
     R = random.Random(case["seed"])
     P = make_project(R)
     files, links = build_files(P, R)
@@ -441,8 +443,51 @@ def eval_case(ctx, case):
         b.close()
 
 
+def eval_single_file_builder(ctx, case):
+    """Builders that merge all pages into one document (latex, texinfo-like): a page's links are still the links OF THAT PAGE. The pages get
+    links to a label that lives in the ROOT document; in the written LaTeX every \\hyperref must name a \\label that exists."""
+    import glob
+    import random
+
+    R = random.Random(case["seed"])
+    P = make_project(R)
+    files, links = build_files(P, R)
+    files["index.md"] += "\n(root-label)=\n## Root Section\n\ntext of the root section\n"
+    for D in P["docs"]:
+        files[D["name"] + ".md"] += "\nRL1 [*em* txt](#root-label) RL2 [](#root-label) RL3 <project:#root-label> RL4 [t](/index.md#root-section) end\n"
+    b = drive.SphinxBuild(dict(files), conf={"myst_heading_anchors": P["anchors"], "exclude_patterns": ["inc_*.md", "**/inc2_*.md", "inc2_*.md"]}, builder="latex")
+    try:
+        try:
+            b.build()
+        except Exception as e:  # noqa: BLE001
+            sig = core.exc_signature(e)
+            ctx.violation(f"latex:build-raises:{sig['type']}:{sig['myst'] or sig['inner']}", f"the latex build raised {sig['type']}: {sig['msg'][:200]}", case, sig)
+            return False
+        tex = ""
+        for fn in glob.glob(os.path.join(b.out, "*.tex")):
+            with open(fn, encoding="utf8") as f:
+                tex += f.read()
+        labels = set(re.findall(r"\\label\{\\detokenize\{([^}]*)\}\}", tex))
+        refs = re.findall(r"\\hyperref\[\\detokenize\{([^}]*)\}\]", tex)
+        ctx.count("latex_builds")
+        ctx.count("latex_hyperrefs_checked", len(refs))
+        dangling = sorted({r for r in refs if r not in labels and "nosuch" not in r})  # (the generated MISSING links keep their fallback target and were warned about)
+        if dangling:
+            ctx.violation("latex:dangling-hyperref", f"{len(dangling)} \\hyperref targets of the LaTeX output name no \\label: {dangling[:4]}", case, {"labels_sample": sorted(labels)[:20]})
+        want = 3 * len(P["docs"])
+        got = sum(1 for r in refs if r == "index:root-label")
+        if got < want:
+            ctx.violation("latex:label-in-root-document", f"{want} links from {len(P['docs'])} pages point at the label of the root document; the LaTeX output has {got} \\hyperref to 'index:root-label'", case, {"refs_sample": sorted(set(refs))[:30]})
+        return True
+    finally:
+        b.close()
+
+
 def run_shard(ctx):
     R = ctx.rng
+    case = {"kind": "latex", "seed": R.getrandbits(48)}
+    eval_single_file_builder(ctx, case)
+    ctx.case(("latex", case["seed"]), True)
     n = 8 if ctx.tier == "quick" else 400
     for i in range(n):
         case = {"kind": "project", "seed": R.getrandbits(48), "parallel": R.choice([0, 0, 2, 4]), "mutation": R.choice([None, "strip-anchors", "strip-anchors", "delete-doc"]), "target": R.randrange(64), "restore": R.random() < 0.5, "builder": R.choice(["html", "html", "html", "dirhtml"])}
